@@ -35,11 +35,24 @@ func VerifC31Windows() {
 	year := 2020 + int(rt.Fix(rt.Int("year_sel", 0, nyears)))
 	day := days[int(rt.Fix(rt.Int("day_sel", 0, ndays)))]
 	zone := time.UTC
-	if rt.Fix(rt.Int("zone", 0, 1)) == 1 {
+	switch rt.Fix(rt.Int("zone", 0, 2)) {
+	case 1:
 		zone = time.FixedZone("M5", -5*3600)
+	case 2:
+		// daylight-saving zone (see vDSTZone): the day is one of its two change days
+		zone = vDSTZone31()
+		if rt.Fix(rt.Int("dst_day", 0, 1)) == 1 {
+			day = md{11, 3}
+		} else {
+			day = md{3, 10}
+		}
 	}
 	d0 := time.Date(year, day.m, day.d, 0, 0, 0, 0, time.UTC).Unix() // (29 Feb 2021 normalises to 1 March)
-	sec := d0 + rt.Int("sec_of_day", 0, 86399)
+	span := int64(86399)
+	if zone != time.UTC {
+		span = 2*86400 - 1 // cover the whole local day as well
+	}
+	sec := d0 + rt.Int("sec_of_day", 0, span)
 	nsec := rt.Int("nsec", 0, 999999999)
 	ts := time.Unix(sec, nsec).In(zone)
 	rt.Reach("entered")
@@ -47,6 +60,9 @@ func VerifC31Windows() {
 	end := cd.Ceil(ts)
 	rt.Reach("computed")
 	rt.Assert(!start.After(ts), "window-start-not-after-timestamp")
+	// recorded finding of the pinned tree: the end of a day window is computed as the date of ts+24h, so in
+	// the first local hour of a 25-hour day (daylight saving ends) the window "ends" at its own start
+	rt.Region("C31-day-window-end-in-the-first-hour-of-a-25-hour-day", cd.suffix == "D" && zone != time.UTC && ts.Add(24*time.Hour).In(zone).Day() == ts.In(zone).Day())
 	rt.Assert(end.After(ts), "window-end-after-timestamp")
 	// week windows are cut by Time.Truncate (absolute, UTC-aligned) but compared by ISO week number in the
 	// timestamp's zone: they disagree for multi-week durations and outside UTC
@@ -85,4 +101,40 @@ func VerifC31Strings() {
 		rt.Assert(again != nil && again.Duration == tf.Duration, "printed-string-parses-to-same-duration")
 	}
 	rt.Reach("computed")
+}
+
+
+// synthetic daylight-saving zone built from TZif bytes (real time.Location machinery): UTC-5 in winter,
+// UTC-4 from 10 March 07:00 UTC to 3 November 06:00 UTC of 2019..2022
+func vDSTZone31() *time.Location {
+	be32 := func(b []byte, v int64) []byte { return append(b, byte(v>>24), byte(v>>16), byte(v>>8), byte(v)) }
+	var times, idx []byte
+	n := int64(0)
+	for y := 2019; y <= 2022; y++ {
+		times = be32(times, time.Date(y, time.March, 10, 7, 0, 0, 0, time.UTC).Unix())
+		idx = append(idx, 1)
+		times = be32(times, time.Date(y, time.November, 3, 6, 0, 0, 0, time.UTC).Unix())
+		idx = append(idx, 0)
+		n += 2
+	}
+	b := []byte{'T', 'Z', 'i', 'f', 0}
+	b = append(b, make([]byte, 15)...)
+	b = be32(b, 0)
+	b = be32(b, 0)
+	b = be32(b, 0)
+	b = be32(b, n)
+	b = be32(b, 2)
+	b = be32(b, 8)
+	b = append(b, times...)
+	b = append(b, idx...)
+	b = be32(b, -5*3600)
+	b = append(b, 0, 0)
+	b = be32(b, -4*3600)
+	b = append(b, 1, 4)
+	b = append(b, 'E', 'S', 'T', 0, 'E', 'D', 'T', 0)
+	loc, err := time.LoadLocationFromTZData("Synthetic/DST", b)
+	if err != nil {
+		panic("harness: " + err.Error())
+	}
+	return loc
 }
